@@ -414,11 +414,15 @@ Proof.
   induction l as [|v r IH]; cbn; intros H n Hn; [lia|]. apply andb_true_iff in H as [H1 H2].
   destruct n; [apply Z.eqb_eq; exact H1 | apply IH; [exact H2 | lia]].
 Qed.
+Lemma nth_skipn' {X} (k n : nat) (l : list X) d : nth n (skipn k l) d = nth (k + n) l d.
+Proof.
+  revert l. induction k as [|k IH]; intros l; [reflexivity|]. destruct l as [|x r]; [destruct n; reflexivity|]. cbn. apply IH.
+Qed.
 Lemma all_free_zdrop n l : 0 <= n -> all_free (zdrop n l) = true -> forall i, n <= i < zlen l -> znth i l = FREESECT.
 Proof.
   intros Hn H i Hi. unfold znth. destruct (i <? 0) eqn:E; [lia|].
   pose proof (all_free_nth _ H (Z.to_nat i - Z.to_nat n)%nat) as Hx.
-  unfold zdrop in Hx. rewrite nth_skipn in Hx. rewrite skipn_length in Hx. unfold zlen in Hi.
+  unfold zdrop in Hx. rewrite nth_skipn' in Hx. rewrite skipn_length in Hx. unfold zlen in Hi.
   replace (Z.to_nat n + (Z.to_nat i - Z.to_nat n))%nat with (Z.to_nat i) in Hx by lia. apply Hx. lia.
 Qed.
 
@@ -443,7 +447,7 @@ Proof. intros H. induction 1; constructor; auto. Qed.
 Lemma marked_In v t : forall j i, In i (marked v j t) <-> j <= i < j + zlen t /\ nth (Z.to_nat (i - j)) t FREESECT = v.
 Proof.
   induction t as [|x r IH]; intros j i; cbn [marked].
-  - cbn. rewrite zlen_nil. split; [tauto | lia].
+  - unfold zlen; cbn; split; [tauto | lia].
   - rewrite zlen_cons. pose proof (zlen_nonneg r) as Hr. destruct (x =? v) eqn:E.
     + cbn [In]. rewrite IH. apply Z.eqb_eq in E. split.
       * intros [->|[H1 H2]]; [split; [lia|]; rewrite Z.sub_diag; exact E|].
@@ -521,4 +525,158 @@ Lemma build_tree_sound ents i t : build_tree ents i = Some t -> dtree ents i t.
 Proof.
   unfold build_tree. destruct (build (S (length ents)) ents i (length ents)) as [[t' b']|] eqn:E; [|discriminate].
   intros H; inversion H; subst. eapply build_sound; exact E.
+Qed.
+
+(* ------------------------------------------------------------------ what a computed layout guarantees by construction *)
+Lemma cfb_layout_facts b L : cfb_layout b = Some L ->
+  let h := parse_header b in
+  let ss := sector_size h in
+  let nsect := sector_count b h in
+  let fat := fat_of b ss (l_fatsects L) in
+  let ents := dirents b ss (l_dir L) in
+  let minifat := fat_of b ss (l_mf L) in
+  difat_chain b ss nsect (h_dif0 h) (l_difsects L) /\
+  l_fatsects L = take_used (difat_entries b h (l_difsects L)) /\
+  Forall (fun s => 0 <= s < nsect) (l_fatsects L) /\
+  chain fat (h_dir0 h) (l_dir L) /\ chain fat (h_mf0 h) (l_mf L) /\
+  (exists root rest, ents = root :: rest /\ chain fat (d_start root) (l_ms L)) /\
+  Forall2 (fun e ch => chain fat (d_start e) ch) (big_streams (h_cutoff h) ents) (l_big L) /\
+  Forall2 (fun e ch => chain minifat (d_start e) ch) (mini_streams (h_cutoff h) ents) (l_mini L) /\
+  Forall2 (fun e t => dtree ents (d_child e) t) (storages ents) (l_trees L).
+Proof.
+  unfold cfb_layout. intros H.
+  set (h := parse_header b) in *. set (ss := sector_size h) in *. set (nsect := sector_count b h) in *.
+  destruct (walk_difat (S (Z.to_nat nsect)) b ss nsect (h_dif0 h)) as [difsects|] eqn:Ed; [|discriminate].
+  set (fatsects := take_used (difat_entries b h difsects)) in *.
+  destruct (negb (forallb (fun s => (0 <=? s) && (s <? nsect)) fatsects)) eqn:Ef; [discriminate|].
+  set (fat := fat_of b ss fatsects) in *.
+  destruct (walk_table fat (h_dir0 h)) as [dir|] eqn:Edir; [|discriminate].
+  destruct (walk_table fat (h_mf0 h)) as [mf|] eqn:Emf; [|discriminate].
+  destruct (negb (forallb (fun s => s <? nsect) (dir ++ mf))) eqn:Eb; [discriminate|].
+  set (ents := dirents b ss dir) in *. set (minifat := fat_of b ss mf) in *.
+  destruct ents as [|root rest] eqn:Eents; [discriminate|].
+  destruct (walk_table fat (d_start root)) as [ms|] eqn:Ems; [|discriminate].
+  destruct (map_opt (fun e => walk_table fat (d_start e)) (big_streams (h_cutoff h) (root :: rest))) as [big|] eqn:Ebig; [|discriminate].
+  destruct (map_opt (fun e => walk_table minifat (d_start e)) (mini_streams (h_cutoff h) (root :: rest))) as [mini|] eqn:Emini; [|discriminate].
+  destruct (map_opt (fun e => build_tree (root :: rest) (d_child e)) (storages (root :: rest))) as [trees|] eqn:Etrees; [|discriminate].
+  inversion H; subst L; clear H. cbn [l_difsects l_fatsects l_dir l_mf l_ms l_big l_mini l_trees].
+  fold fatsects. fold fat. fold minifat. subst ents. rewrite Eents.
+  repeat split.
+  - eapply walk_difat_sound; exact Ed.
+  - apply negb_false_iff in Ef. rewrite forallb_forall in Ef. apply Forall_forall. intros s Hs. specialize (Ef s Hs). lia.
+  - apply walk_table_sound; exact Edir.
+  - apply walk_table_sound; exact Emf.
+  - exists root, rest. split; [reflexivity | apply walk_table_sound; exact Ems].
+  - eapply Forall2_imp; [|apply map_opt_Forall2; exact Ebig]. cbn. intros e ch Hc. apply walk_table_sound; exact Hc.
+  - eapply Forall2_imp; [|apply map_opt_Forall2; exact Emini]. cbn. intros e ch Hc. apply walk_table_sound; exact Hc.
+  - eapply Forall2_imp; [|apply map_opt_Forall2; exact Etrees]. cbn. intros e t Hc. apply build_tree_sound; exact Hc.
+Qed.
+
+Lemma object_indices_spec ents i :
+  In i (object_indices ents) <-> exists e, nth_ent ents i = Some e /\ is_object e = true.
+Proof.
+  unfold object_indices. rewrite marked_In. unfold nth_ent, zlen. rewrite map_length. rewrite Z.sub_0_r. split.
+  - intros [H1 H2]. destruct (i <? 0) eqn:E; [lia|].
+    destruct (nth_error ents (Z.to_nat i)) as [e|] eqn:Ee.
+    + exists e. split; [reflexivity|].
+      rewrite (nth_indep _ FREESECT 0) in H2 by (rewrite map_length; lia).
+      change 0 with ((fun e => if is_object e then 1 else 0) (mkDirent [] 0 0 0 0 0 0 [] 0 0 0 0 0)) in H2 at 2.
+      rewrite map_nth in H2. erewrite nth_error_nth in H2 by exact Ee. destruct (is_object e); [reflexivity|discriminate].
+    + apply nth_error_None in Ee. lia.
+  - intros (e & He & Ho). destruct (i <? 0) eqn:E; [discriminate|].
+    assert (Hlt : (Z.to_nat i < length ents)%nat) by (apply nth_error_Some; congruence).
+    split; [lia|].
+    rewrite (nth_indep _ FREESECT 0) by (rewrite map_length; lia).
+    change 0 with ((fun e => if is_object e then 1 else 0) (mkDirent [] 0 0 0 0 0 0 [] 0 0 0 0 0)) at 2.
+    rewrite map_nth. erewrite nth_error_nth by exact He. rewrite Ho. reflexivity.
+Qed.
+
+Lemma in_marked_znth v t i : In i (marked v 0 t) <-> 0 <= i < zlen t /\ nth (Z.to_nat i) t FREESECT = v.
+Proof. rewrite marked_In. rewrite Z.sub_0_r. tauto. Qed.
+
+(* ------------------------------------------------------------------ soundness of the validator *)
+Theorem cfb_check_sound b : cfb_check b = true -> cfb_valid b.
+Proof.
+  unfold cfb_check. intros H. apply andb_true_iff in H as [Hh H].
+  destruct (cfb_layout b) as [L|] eqn:EL; [|discriminate].
+  pose proof (cfb_layout_facts b L EL) as F. cbv zeta in F.
+  destruct F as (Fdif & Ffat & Ffatb & Fdir & Fmf & (root & rest & Eents & Fms) & Fbig & Fmini & Ftrees).
+  unfold cfb_conditions in H. cbv zeta in H. cbn [forallb snd] in H.
+  rewrite Eents in H, Fbig, Fmini, Ftrees.
+  repeat (apply andb_true_iff in H; let Hx := fresh "C" in destruct H as [Hx H]).
+  clear H.
+  exists L. unfold valid_with. cbv zeta. rewrite Eents.
+  set (h := parse_header b) in *. set (ss := sector_size h) in *. set (nsect := sector_count b h) in *.
+  set (fat := fat_of b ss (l_fatsects L)) in *. set (minifat := fat_of b ss (l_mf L)) in *.
+  assert (Hnsect : 0 <= nsect).
+  { unfold header_ok in Hh. fold h in Hh. fold ss in Hh. repeat (apply andb_true_iff in Hh as [Hh ?]).
+    unfold nsect, sector_count. fold ss. assert (0 < ss) by (unfold ss, sector_size; apply Z.pow_pos_nonneg; [lia|];
+      destruct ((h_major h =? 3) && (h_sshift h =? 9)) eqn:E1; lia).
+    assert (1 <= zlen b / ss) by (apply Z.div_le_lower_bound; lia). lia. }
+  (* sorted-equality conditions *)
+  apply andb_true_iff in C3 as [C3a C3b].
+  destruct (sort_eq_spec _ _ C3a (marked_NoDup _ _ _)) as [_ Mfat].
+  destruct (sort_eq_spec _ _ C3b (marked_NoDup _ _ _)) as [_ Mdif].
+  destruct (sort_eq_spec _ _ C10 (used_from_NoDup _ _ _)) as [Nown Mown].
+  destruct (sort_eq_spec _ _ C11 (used_from_NoDup _ _ _)) as [Nmini Mmini].
+  destruct (sort_eq_spec _ _ C14 (marked_NoDup _ _ _)) as [Nnodes Mnodes].
+  apply andb_true_iff in C2 as [C2a C2b]. apply andb_true_iff in C4 as [C4a C4b].
+  apply andb_true_iff in C6 as [C6a C6b]. apply andb_true_iff in C7 as [C7a C7b].
+  repeat match goal with |- _ /\ _ => split end.
+  - exact Hh.
+  - exact Fdif.
+  - lia.
+  - exists (length (drop_used (difat_entries b h (l_difsects L)))).
+    rewrite Ffat at 1. rewrite <- (all_free_repeat _ C0). apply take_drop_used.
+  - exact Ffatb.
+  - lia.
+  - lia.
+  - apply all_free_zdrop; [exact Hnsect | exact C2b].
+  - intros i. split.
+    + intros Hi. apply Mfat in Hi. apply in_marked_znth in Hi. destruct Hi as [Hi Hv]. rewrite znth_nth by lia. tauto.
+    + intros [Hi Hv]. apply Mfat. apply in_marked_znth. split; [exact Hi|]. rewrite znth_nth in Hv by lia. exact Hv.
+  - intros i. split.
+    + intros Hi. apply Mdif in Hi. apply in_marked_znth in Hi. destruct Hi as [Hi Hv]. rewrite znth_nth by lia. tauto.
+    + intros [Hi Hv]. apply Mdif. apply in_marked_znth. split; [exact Hi|]. rewrite znth_nth in Hv by lia. exact Hv.
+  - exact Fdir.
+  - intros Hnil. rewrite Hnil in C4a. cbn in C4a. discriminate.
+  - destruct (h_major h =? 3); lia.
+  - exact Fmf.
+  - lia.
+  - apply Forall_forall. rewrite forallb_forall in C6a. exact C6a.
+  - exists root, rest. repeat match goal with |- _ /\ _ => split end.
+    + reflexivity.
+    + apply andb_true_iff in C6b as [Hr _]. lia.
+    + apply andb_true_iff in C6b as [_ Hr]. rewrite forallb_forall in Hr. apply Forall_forall. intros e He.
+      specialize (Hr e He). destruct (d_type e =? 5) eqn:E5; [discriminate | lia].
+    + exact Fms.
+    + lia.
+    + apply all_free_zdrop; [|exact C7b]. apply Z.div_pos; [|lia].
+      apply Z.mul_nonneg_nonneg; [apply zlen_nonneg|]. unfold ss, sector_size. apply Z.pow_nonneg. lia.
+    + apply forallb2_Forall2 in C9. pose proof (Forall2_and _ _ _ _ Fmini C9) as Hx.
+      eapply Forall2_imp; [|exact Hx]. cbn. intros e ch [Hc Hb]. apply andb_true_iff in Hb as [Hb1 Hb2].
+      split; [exact Hc|]. split; [lia|]. apply Forall_forall. rewrite forallb_forall in Hb2. intros s Hs. specialize (Hb2 s Hs). lia.
+  - apply forallb2_Forall2 in C8. pose proof (Forall2_and _ _ _ _ Fbig C8) as Hx.
+    eapply Forall2_imp; [|exact Hx]. cbn. intros e ch [Hc Hb]. split; [exact Hc | lia].
+  - exact Nown.
+  - intros i. split.
+    + intros Hi. apply Mown in Hi. apply used_from_In in Hi. destruct Hi as [Hi Hv]. rewrite Z.sub_0_r in Hv.
+      rewrite znth_nth by lia. split; [lia | exact Hv].
+    + intros [Hi Hv]. apply Mown. apply used_from_In. rewrite Z.sub_0_r. rewrite znth_nth in Hv by lia.
+      split; [|exact Hv]. unfold zlen in C2a. lia.
+  - exact Nmini.
+  - intros i. split.
+    + intros Hi. apply Mmini in Hi. apply used_from_In in Hi. destruct Hi as [Hi Hv]. rewrite Z.sub_0_r in Hv.
+      rewrite znth_nth by lia. split; [unfold zlen; lia | exact Hv].
+    + intros [Hi Hv]. apply Mmini. apply used_from_In. rewrite Z.sub_0_r. rewrite znth_nth in Hv by lia.
+      split; [|exact Hv]. unfold zlen in Hi. lia.
+  - assert (Hb : Forall (fun t => bst Z (ent_lt (root :: rest)) t /\ rb_valid Z t) (l_trees L)).
+    { apply Forall_forall. intros t Ht. rewrite forallb_forall in C12, C13. split.
+      - apply bst_b_iff. apply C12. exact Ht.
+      - apply rb_ok_iff. apply C13. exact Ht. }
+    clear - Ftrees Hb. induction Ftrees; [constructor|]. inversion Hb; subst. constructor; [tauto | auto].
+  - exact Nnodes.
+  - intros i. split.
+    + intros Hi. apply object_indices_spec. apply Mnodes. exact Hi.
+    + intros Hi. apply Mnodes. apply object_indices_spec. exact Hi.
 Qed.
